@@ -10,8 +10,9 @@
 (* the property checked in every state) and, when a case is finished, compares the observation with       *)
 (*   - the set of outcomes the property allows (Ref)      -> <<"R", index, "ref">>   (verdict)            *)
 (*   - the outcome of the transcribed algorithm (Alg)     -> <<"R", index, "alg">>   (drift)              *)
-(* On a case with the recorded deviation HiddenButRequiredByPython the Ref clause is named "ref-dev-as-alg"  *)
-(* when the real code behaves exactly as the Alg layer predicts (the known finding), "ref-dev-other" else.  *)
+(* On a case with a recorded deviation (HiddenButRequiredByPython, AmbiguousSubOption) the Ref clause is named      *)
+(* "ref-dev-as-alg" / "ref-dev-abbrev-as-alg" when the real code behaves exactly as the Alg layer predicts (the       *)
+(* known findings), "ref-dev-other" otherwise.                                                                        *)
 (* Every finished case prints <<"D", index>> so that the harness can see that nothing was skipped.        *)
 EXTENDS Cli, Json, IOUtils
 \* TLC orders record fields by first appearance of the name in the root module: keep the tag first
@@ -28,9 +29,11 @@ Say(idx, clause) == PrintT(<<"R", idx, clause>>)
 Check == Done =>
   LET o == Data[tid].obs
       allowed == RefOutcomes(cs)
-  IN /\ (\E x \in allowed : x = o) \/ Say(tid, IF HiddenButRequiredByPython THEN (IF o = AlgOutcome THEN "ref-dev-as-alg" ELSE "ref-dev-other") ELSE "ref")
+  IN /\ (\E x \in allowed : x = o) \/ Say(tid, IF o = AlgOutcome /\ AmbiguousSubOption /\ o.out = "reject" THEN "ref-dev-abbrev-as-alg"
+                                                ELSE IF o = AlgOutcome /\ HiddenButRequiredByPython /\ o.out = "crash" THEN "ref-dev-as-alg"
+                                                ELSE IF Deviation THEN "ref-dev-other" ELSE "ref")
      /\ (o = AlgOutcome) \/ Say(tid, "alg")
-     /\ (HiddenButRequiredByPython \/ AlgOutcome \in allowed) \/ Say(tid, "alg-not-ref")      \* design-level disagreement on a recorded case
+     /\ (Deviation \/ AlgOutcome \in allowed) \/ Say(tid, "alg-not-ref")      \* design-level disagreement on a recorded case
      /\ PrintT(<<"D", tid>>)
 Inv == Check \/ TRUE
 =============================================================================
